@@ -76,6 +76,8 @@ var (
 	extremeU32 = []uint32{0, 1, math.MaxUint32, math.MaxInt32, math.MaxInt32 + 1, 1 << 16, 0xffff0000, 1 << 24}
 	extremeF64 = []float64{0, math.Copysign(0, -1), 1, -1, math.MaxFloat64, -math.MaxFloat64, math.SmallestNonzeroFloat64, 5e-324 * 3, math.Inf(1), math.Inf(-1),
 		0.1, 1e21, 1e-7, 123456789.123456789, float64(1<<53 + 2), math.NaN(),
+		// NaNs other than Go's canonical one: negative quiet NaN with a payload, signalling NaN
+		math.Float64frombits(0xfff8000000000123), math.Float64frombits(0x7ff0000000000001),
 		// zero in one 32-bit word of the bit pattern: high word only (2, -2, 2^-1022), low word only (denormals)
 		2, -2, 0x1p-1022, math.Float64frombits(0x00000000ffffffff), math.Float64frombits(1 << 32)}
 )
